@@ -11,6 +11,8 @@ pub struct Headers<'a> {
     print_date: bool,
     /// a Content-Length value was not `1*DIGIT`, out of range, or conflicted with an earlier one
     invalid_content_length: bool,
+    /// a Transfer-Encoding field is present and its final coding is not `chunked`
+    te_final_not_chunked: bool,
 }
 
 static HEADERS_VEC_INIT_CAPACITY: usize = 16; // rough guess, could be benchmarked
@@ -44,6 +46,7 @@ impl<'a> Headers<'a> {
             connection_close: false,
             print_date: true,
             invalid_content_length: false,
+            te_final_not_chunked: false,
         }
     }
 
@@ -55,6 +58,7 @@ impl<'a> Headers<'a> {
             connection_close: false,
             print_date: false,
             invalid_content_length: false,
+            te_final_not_chunked: false,
         }
     }
 
@@ -90,12 +94,18 @@ impl<'a> Headers<'a> {
         }
 
         if name.eq_ignore_ascii_case(Self::TRANSFER_ENCODING) {
+            // the final coding is the last non-empty list element of the last field line
+            let mut last_is_chunked = false;
             for v in value.split(|&b| b == b',').map(|v| v.trim_ascii()) {
-                if v.eq_ignore_ascii_case(b"chunked") {
+                if v.is_empty() {
+                    continue;
+                }
+                last_is_chunked = v.eq_ignore_ascii_case(b"chunked");
+                if last_is_chunked {
                     self.chunked = true;
-                    break;
                 }
             }
+            self.te_final_not_chunked = !last_is_chunked;
         } else if name.eq_ignore_ascii_case(Self::CONNECTION) {
             for v in value.split(|&b| b == b',').map(|v| v.trim_ascii()) {
                 if v.eq_ignore_ascii_case(b"close") {
@@ -143,6 +153,7 @@ impl<'a> Headers<'a> {
             self.invalid_content_length = false;
         } else if name.eq_ignore_ascii_case(Self::TRANSFER_ENCODING) {
             self.chunked = false;
+            self.te_final_not_chunked = false;
         } else if name.eq_ignore_ascii_case(Self::CONNECTION) {
             self.connection_close = false; // back to default
         }
@@ -164,14 +175,16 @@ impl<'a> Headers<'a> {
         self.invalid_content_length = false;
     }
 
-    /// True if the fields added so far cannot frame a message: a Content-Length that is not a
-    /// plain decimal number, or two different Content-Length values (RFC 9112 section 6.3).
+    /// True if the fields added so far cannot frame a request: a Content-Length that is not a
+    /// plain decimal number, two different Content-Length values, or a Transfer-Encoding whose
+    /// final coding is not chunked (RFC 9112 section 6.3).
     pub fn has_invalid_framing(&self) -> bool {
-        self.invalid_content_length
+        self.invalid_content_length || self.te_final_not_chunked
     }
 
     pub fn set_transfer_encoding_chunked(&mut self) {
         self.chunked = true;
+        self.te_final_not_chunked = false;
         self.headers.push((
             Cow::Borrowed(Self::TRANSFER_ENCODING),
             Cow::Borrowed(b"chunked"),
